@@ -267,7 +267,7 @@ func runBatches(t *testing.T, engine string, prop func(*rapid.T)) {
 		_ = flag.Set("rapid.checks", "1")
 		_ = flag.Set("rapid.seed", "1")
 		defer func() { stats.FailedTest = t.Failed() }()
-		rapid.Check(t, prop)
+		rapid.Check(t, func(rt *rapid.T) { simT = rt; defer func() { simT = nil }(); prop(rt) })
 		return
 	}
 	base := envUint("VERIF_SEED", 1)
@@ -285,11 +285,56 @@ func runBatches(t *testing.T, engine string, prop func(*rapid.T)) {
 		stats.Seeds = append(stats.Seeds, seed)
 		_ = flag.Set("rapid.seed", strconv.FormatUint(seed, 10))
 		_ = flag.Set("rapid.checks", strconv.FormatInt(checks, 10))
-		rapid.Check(t, prop) // FailNow()s the test on the first falsified case
+		rapid.Check(t, func(rt *rapid.T) { simT = rt; defer func() { simT = nil }(); prop(rt) }) // FailNow()s the test on the first falsified case
 	}
 }
 
 // ------------------------------------------------------------ rapid <-> simrt
+
+// simT is the rapid case a sequential engine is executing (set by runBatches).
+var simT *rapid.T
+
+// seqHang is what a sequential engine sees as the error of an operation that
+// never returned under the simulator (every goroutine parked).
+type seqHang struct{ msg string }
+
+func (h *seqHang) Error() string { return "HANG: " + h.msg }
+
+// underSim runs one operation of a sequential engine (C05/C15, C13, C10). On a
+// tree without go statements it just calls f. When the code under test starts
+// goroutines of its own (instrumenter rule R6 fired), the operation runs as the
+// single caller task of a seeded simulation, so those goroutines are scheduled
+// by the run's choice source (replayable) instead of by the Go runtime. It
+// returns a non-nil error when the operation did not return (deadlock), a
+// spawned goroutine panicked, or the step budget was exhausted.
+func underSim(f func()) error {
+	if simrt.GoSites == 0 || simT == nil || simrt.InTask() {
+		f()
+		return nil
+	}
+	opts := drawSched(simT, 400)
+	opts.MaxSteps = 2000000
+	sim := simrt.NewSim(rapidChooser{simT}, opts)
+	sim.Go("op", f)
+	err := sim.Run()
+	count("seq_sim_ops", 1)
+	count("sched_steps", int64(sim.Steps))
+	count("sched_switches", int64(sim.Switches))
+	count("sched_spawned_goroutines", int64(sim.Spawned))
+	count("sched_leaked_goroutines", int64(sim.Leaked))
+	if sim.Switches > 0 {
+		seen("seqsched", sim.Sig)
+	}
+	switch e := err.(type) {
+	case nil:
+		return nil
+	case *simrt.StepLimit, *simrt.Inconclusive:
+		count("seq_sim_inconclusive", 1)
+		return nil
+	default:
+		return &seqHang{e.Error()}
+	}
+}
 
 // uni draws a uniformly distributed value in [0,n). rapid's integer
 // generators are deliberately biased towards small values, which is right for
